@@ -22,6 +22,9 @@ Ties:
               the four body-lowering plugins have the statement shape of Lowering.inline_plugin (AST).
   D(linear)   the real jax.numpy functions named in the allow-list are linear on integer data and have the
               modelled form (gather / concatenation / select).
+  D(prod)     Linear.ProdJvp (three-case tangent = product rule, proved) against jax.jvp(jnp.prod) on integer slices.
+  Inventory   every plugin registering a HAND-WRITTEN jvp/transpose rule (AST scan, gen/GenAutodiff.v) has a boundary program family
+              here (grad/jvp/vjp/vmap-of-grad on the case splits of its rule); derived/forwarded rules are JAX's own.
 Exploration + search (the property on the real code): T(f) for ~30 functions f and ~20 transformations T is
 exported with the real to_onnx, run with onnxruntime and compared with T(f) evaluated by JAX."""
 import ast
@@ -883,6 +886,49 @@ def explore_rules(ctx, budget_s, handwritten_modules):
     return stats
 
 
+def _handwritten_rule_modules():
+    import importlib.util
+    p = os.path.join(common.VERIF, "tools", "units", "c10_units.py")
+    spec = importlib.util.spec_from_file_location("c10_units_for_harness", p)
+    mod = importlib.util.module_from_spec(spec)
+    spec.loader.exec_module(mod)
+    inv = mod._rule_inventory()
+    return sorted(set(inv["jvp_hand"]) | set(inv["transpose_hand"])), inv
+
+
+def tie_prod_model(ctx):
+    """Linear.ProdJvp (the three-case tangent and the product rule) against JAX's own jvp of jnp.prod on integer slices"""
+    import jax
+    import jax.numpy as jnp
+    rng = ctx.rng
+    rows = [([0, 5, 0], [1, 0, 0]), ([0, 5, 0], [3, 1, 3]), ([2, 0, 3], [1, 1, 1]), ([1, 2, 3], [1, -1, 2]), ([0, 0, 0], [1, 2, 3]), ([0], [4]), ([-3], [2]),
+            ([], [])]
+    while len(rows) < (40 if ctx.tier == "quick" else 200):
+        n = rng.randint(1, 5)
+        rows.append(([rng.choice([0, 0, 1, -1, 2, -2, 3, 5]) for _ in range(n)], [rng.randint(-3, 3) for _ in range(n)]))
+    items = []
+    for x, t in rows:
+        if x:
+            _, tv = jax.jvp(lambda v: jnp.prod(v), (jnp.asarray(x, jnp.float32),), (jnp.asarray(t, jnp.float32),))
+            tv = int(round(float(tv)))
+        else:
+            tv = 0
+        items.append((x, t, tv))
+    q = lambda l: "[" + "; ".join(f"({int(v)}#1)" for v in l) + "]"
+    txt = ("From Coq Require Import QArith List Bool.\nFrom J2O Require Import Linear.\nImport ListNotations.\n"
+           "Set Printing Width 1000000.\n"
+           "Fixpoint bad_idx_ {A} (f : A -> bool) (i : nat) (l : list A) : list nat :=\n"
+           "  match l with [] => [] | x :: r => if f x then bad_idx_ f (S i) r else i :: bad_idx_ f (S i) r end.\n"
+           "Definition cs : list (list Q * list Q * Q) := [" + ";\n ".join(f"({q(x)}, {q(t)}, ({tv}#1))" for x, t, tv in items) + "].\n"
+           "Eval vm_compute in bad_idx_ (fun c => let '(x, t, v) := c in Qeq_bool (ProdJvp.prod_jvp_three x t) v && Qeq_bool (ProdJvp.dprod x t) v) 0%nat cs.\n")
+    ok, out = common.coq_eval_file(ctx, "c10_prodjvp", txt)
+    bad = common.coq_bad_indices(out) if ok else None
+    ctx.oblige(f"tie:ProdJvp-model-equals-jax.jvp(jnp.prod)({len(items)} integer slices)", ok and bad == [], "tie",
+               out[-800:] if (not ok or bad is None) else ("" if not bad else f"differ on {[items[i] for i in bad[:4]]}"))
+    ctx.coverage["prod_model_slices"] = {"total": len(items), "with_two_or_more_zeros": sum(1 for x, _, _ in items if x.count(0) >= 2),
+                                         "with_exactly_one_zero": sum(1 for x, _, _ in items if x.count(0) == 1)}
+
+
 # ===================================================================== exploration: vmap over the testcase registry
 def _registry_selection():
     """registry testcases of the substitute primitives with static float32 inputs (deterministic order)"""
@@ -1002,7 +1048,17 @@ def run(ctx):
     tie_reduction_rules(ctx)
     tie_inline(ctx)
     tie_linear(ctx)
+    tie_prod_model(ctx)
     phases["ties_s"] = round(time.time() - t, 1)
+    t = time.time()
+    try:
+        hand, inv = _handwritten_rule_modules()
+        ctx.coverage["rule_inventory"] = {k: len(v) for k, v in inv.items()}
+    except Exception as e:                         # the inventory failed closed (also reported by translate:GenAutodiff)
+        hand = []
+        ctx.oblige("tie:rule-inventory", False, "tie", f"{type(e).__name__}: {e}")
+    rule_stats = explore_rules(ctx, 75.0 if ctx.tier == "quick" else 300.0, hand)
+    phases["rules_s"] = round(time.time() - t, 1)
     t = time.time()
     # time budgets are per phase (a loaded machine skips jobs, it never changes a verdict)
     stats = explore(ctx, 110.0 if ctx.tier == "quick" else 420.0)
@@ -1016,9 +1072,9 @@ def run(ctx):
     ctx.level = "proof"
     ctx.coverage.update({
         "evaluations": ctx.coverage.get("batcher_cases", 0) + ctx.coverage.get("transform_exports", 0) + ctx.coverage.get("linear_evaluations", 0)
-        + ctx.coverage.get("registry_vmap_testcases", 0),
+        + ctx.coverage.get("registry_vmap_testcases", 0) + ctx.coverage.get("rule_boundary_exports", 0),
         "distinct_nontrivial": ctx.coverage.get("transform_exports", 0) - stats["reject"] - stats["ref_error"]
-        + rstats.get("ok", 0) + rstats.get("mismatch", 0),
+        + rstats.get("ok", 0) + rstats.get("mismatch", 0) + rule_stats["ok"] + rule_stats["mismatch"],
         "rule": "non-trivial = a (transformation, function) pair that exported and was compared numerically with JAX; batcher cases: generated "
                 "(operand shapes, batch dims) with numpy-compatible per-example shapes, ranks 0..3, incl. rank-deficient batched operands",
         "level_detail": "proof (batch rule, inlining, allow-list linearity) + exploration of T(f) on the real exporter; per-plugin batching/"
@@ -1051,6 +1107,17 @@ def replay(path):
             good = False
             print("real batcher raises", type(e).__name__, e, "-> still violated")
         return 0 if good else 1
+    if r.get("kind") == "rule":
+        F, D = _rule_families()
+        cases = [c for c in F.get(r["module"], []) if c[0] == r["case"]] + [v for k, v in D.items() if k == r["module"] and v[0] == r["case"]]
+        for (case, f, ins) in cases:
+            for (tn, g, gin) in _rule_transforms(f, ins):
+                if tn == r["T"]:
+                    res, detail = _run_one(g, None, None, ins=gin)
+                    print(f"{tn}({case}): {res} {detail}")
+                    return 1 if res == "mismatch" else 0
+        print("rule case not found")
+        return 2
     if r.get("kind") == "reduction":
         c = common.Ctx("C10", "quick", 0)
         c.rng.seed(0)
